@@ -24,9 +24,9 @@ func c03(c *core.Ctx) {
 
 	// ---- R1
 	type h struct {
-		fn        string
-		needRmOK  bool // release only when Remove succeeded
-		errorArm  bool
+		fn       string
+		needRmOK bool // release only when Remove succeeded
+		errorArm bool
 	}
 	for _, hd := range []h{{"pubackHandler", true, false}, {"pubcompHandler", false, false}, {"pubrecHandler", false, true}} {
 		f := p.Func("server", "(*client)."+hd.fn)
@@ -73,7 +73,9 @@ func c03(c *core.Ctx) {
 			rep := invokeCalls(f, queueStoreIface, "Replace")
 			okRep := false
 			for _, st := range storesToField(f, "persistence/queue.Pubrel.PacketID") {
-				if ssax.AnyIn(ssax.BackwardOpt(st.Val, func(call *ssa.Call) bool { return call.Call.StaticCallee() != nil && call.Call.StaticCallee().Name() == "NewPubrel" }), func(v ssa.Value) bool { return v == ssa.Value(f.Params[1]) }) || fl.OnlyFrom(st.Val, prm+".PacketID") || fl.OnlyFrom(st.Val, "call((*pkg/packets.Pubrec).NewPubrel).PacketID") {
+				if ssax.AnyIn(ssax.BackwardOpt(st.Val, func(call *ssa.Call) bool {
+					return call.Call.StaticCallee() != nil && call.Call.StaticCallee().Name() == "NewPubrel"
+				}), func(v ssa.Value) bool { return v == ssa.Value(f.Params[1]) }) || fl.OnlyFrom(st.Val, prm+".PacketID") || fl.OnlyFrom(st.Val, "call((*pkg/packets.Pubrec).NewPubrel).PacketID") {
 					okRep = true
 				}
 			}
@@ -118,41 +120,7 @@ func c03(c *core.Ctx) {
 		}
 	}
 	c.Check(okND, "C03.R1", "NotifyDropped|expired-inflight-release", fpos(c, nd), "an expired in-flight element frees its own id", "dropping an expired in-flight element does not release that element's packet id (window leak), or releases it for other drop reasons")
-	// the drop is still counted / reported whatever the reason (scenario: expired in-flight PUBLISH of a connected client)
-	{
-		nds := ssax.Calls(nd, false, ssax.ByFunc(p.Func("server", "(*queueNotifier).notifyDropped")))
-		pins := map[ssa.Value]ssax.AV{}
-		ssax.Instrs(nd, false, func(_ *ssa.Function, in ssa.Instruction) {
-			switch x := in.(type) {
-			case *ssa.BinOp:
-				if (x.Op == token.EQL || x.Op == token.NEQ) && ssax.AnyIn(ssax.Backward(x.Y), func(v ssa.Value) bool {
-					gl, ok := v.(*ssa.Global)
-					return ok && gl.Name() == "ErrDropExpiredInflight"
-				}) {
-					pins[x] = ssax.AVTrue
-					if x.Op == token.NEQ {
-						pins[x] = ssax.AVFalse
-					}
-				}
-			case *ssa.Call:
-				if f := x.Call.StaticCallee(); f != nil && f.Name() == "IsConnected" {
-					pins[x] = ssax.AVTrue
-				}
-			case *ssa.Extract:
-				if ta, ok := x.Tuple.(*ssa.TypeAssert); ok && x.Index == 1 && ssax.TypeName(ta.AssertedType) == "persistence/queue.Publish" {
-					pins[x] = ssax.AVTrue
-				}
-			}
-		})
-		r := ssax.Analyze(nd, ssax.ReachOpts{Pins: pins})
-		okCount := false
-		for _, x := range nds {
-			if r.Reachable(x.Instr) {
-				okCount = true
-			}
-		}
-		c.Check(okCount, "C03.R1", "NotifyDropped|always-reported", fpos(c, nd), "every dropped PUBLISH is reported", "a dropped expired in-flight PUBLISH of a connected client is not reported (statistics / OnMsgDropped) when its id is released")
-	}
+	notifyDroppedAlwaysReported(c, "C03.R1")
 
 	// ---- R2
 	pmh := p.Func("server", "(*client).pollMessageHandler")
@@ -467,7 +435,9 @@ func c03(c *core.Ctx) {
 	const maxInfl = "server.ClientOptions.MaxInflight"
 	nRM := 0
 	for i, st := range storesToField(cw, maxInfl) {
-		if !ssax.AnyIn(ssax.BackwardOpt(st.Val, func(call *ssa.Call) bool { return call.Call.StaticCallee() != nil && core.IsModuleFunc(call.Call.StaticCallee()) }), ssax.LoadOfField("pkg/packets.Properties.ReceiveMaximum")) {
+		if !ssax.AnyIn(ssax.BackwardOpt(st.Val, func(call *ssa.Call) bool {
+			return call.Call.StaticCallee() != nil && core.IsModuleFunc(call.Call.StaticCallee())
+		}), ssax.LoadOfField("pkg/packets.Properties.ReceiveMaximum")) {
 			continue
 		}
 		nRM++
@@ -519,4 +489,42 @@ func c03(c *core.Ctx) {
 			c.Check(!early, "C03.R6", "pollMessageHandler|replay-until-drained", ipos(c, polls[0].Instr), "replay repeats until nothing is left", "new messages are polled although pollInflights reported that more in-flight messages remain")
 		}
 	}
+}
+
+// notifyDroppedAlwaysReported: scenario "expired in-flight PUBLISH of a connected client" - the drop must still reach notifyDropped.
+func notifyDroppedAlwaysReported(c *core.Ctx, rule string) {
+	p := c.P
+	nd := p.Func("server", "(*queueNotifier).NotifyDropped")
+	nds := ssax.Calls(nd, false, ssax.ByFunc(p.Func("server", "(*queueNotifier).notifyDropped")))
+	pins := map[ssa.Value]ssax.AV{}
+	ssax.Instrs(nd, false, func(_ *ssa.Function, in ssa.Instruction) {
+		switch x := in.(type) {
+		case *ssa.BinOp:
+			if (x.Op == token.EQL || x.Op == token.NEQ) && ssax.AnyIn(ssax.Backward(x.Y), func(v ssa.Value) bool {
+				gl, ok := v.(*ssa.Global)
+				return ok && gl.Name() == "ErrDropExpiredInflight"
+			}) {
+				pins[x] = ssax.AVTrue
+				if x.Op == token.NEQ {
+					pins[x] = ssax.AVFalse
+				}
+			}
+		case *ssa.Call:
+			if f := x.Call.StaticCallee(); f != nil && f.Name() == "IsConnected" {
+				pins[x] = ssax.AVTrue
+			}
+		case *ssa.Extract:
+			if ta, ok := x.Tuple.(*ssa.TypeAssert); ok && x.Index == 1 && ssax.TypeName(ta.AssertedType) == "persistence/queue.Publish" {
+				pins[x] = ssax.AVTrue
+			}
+		}
+	})
+	r := ssax.Analyze(nd, ssax.ReachOpts{Pins: pins})
+	okCount := false
+	for _, x := range nds {
+		if r.Reachable(x.Instr) {
+			okCount = true
+		}
+	}
+	c.Check(okCount, rule, "NotifyDropped|always-reported", fpos(c, nd), "every dropped PUBLISH is reported", "a dropped expired in-flight PUBLISH of a connected client is not reported (statistics / OnMsgDropped) when its id is released")
 }
